@@ -40,3 +40,28 @@ pub open spec fn closed_states(a: Automaton, s: Set<usize>) -> bool {
     &&& forall|x: usize| #[trigger] s.contains(x) ==> x < a.states@.len()
     &&& forall|x: usize, c: u32| #![trigger s.contains(x), delta(a, x as int, c as int)] s.contains(x) && c <= MAX_CHAR ==> s.contains(delta(a, x as int, c as int) as usize)
 }
+
+// ---- the combined character partition and the compiled successor table ----
+
+// p refines the class partition of every state and covers exactly the characters some state mentions
+pub open spec fn is_combined(p: CharPartition, a: Automaton) -> bool {
+    &&& cp_wf(p)
+    &&& forall|q: int| 0 <= q < a.states@.len() ==> refines(p.list@, (#[trigger] a.states@[q]).classes.list@)
+    &&& forall|x: int| #[trigger] cl_in(p.list@, x) == (exists|q: int| 0 <= q < a.states@.len() && cl_in((#[trigger] a.states@[q]).classes.list@, x))
+}
+
+// character c belongs to class number j of p (the classes are the intervals in order, then the complement)
+pub open spec fn in_class_no(p: CharPartition, c: int, j: int) -> bool {
+    0 <= c <= MAX_CHAR && (if j < p.list@.len() { 0 <= j && cs_has(p.list@[j], c) } else { j == p.list@.len() && !cl_in(p.list@, c) })
+}
+
+// v holds one character of each class of p, in class order
+pub open spec fn alphabet_of(p: CharPartition, v: Seq<u32>) -> bool {
+    &&& v.len() == p.list@.len() + (if cp_valid(p, ClassId::Complement) { 1int } else { 0int })
+    &&& forall|j: int| 0 <= j < v.len() ==> in_class_no(p, (#[trigger] v[j]) as int, j)
+}
+
+// character c does not fall back on the default successor of state s
+pub open spec fn cl_or_nodefault(s: State, c: int) -> bool {
+    !(s.default_successor.is_some() && !cl_in(s.classes.list@, c))
+}
